@@ -80,13 +80,27 @@ func thoroughExtras(c *Ctx, pr *Property, repo, verif string) (map[string]any, [
 		}(i, v)
 	}
 	wg.Wait()
+	// the stored seeded changes that target this property, replayed in memory on the current tree
+	seeds := seedsFor(pr.ID, verif)
+	seedOut := make([]variantOutcome, len(seeds))
+	for i, sm := range seeds {
+		wg.Add(1)
+		go func(i int, sm seedMeta) {
+			defer wg.Done()
+			sem <- struct{}{}
+			defer func() { <-sem }()
+			seedOut[i] = runSeed(pr, sm, repo, verif)
+		}(i, sm)
+	}
+	wg.Wait()
+	outcomes = append(outcomes, seedOut...)
 	tally := map[string]int{}
 	for _, o := range outcomes {
 		tally[o.Outcome]++
 	}
 	extra["selftest"] = map[string]any{
 		"note":     "variants of /repo's current source applied in memory (packages.Config.Overlay); 'killed' = a seeded break was reported, 'silent-ok' = a behaviour-preserving rewrite was not; 'missed' and 'false-alarm' are defects of the checker and do not change the verdict on /repo",
-		"variants": len(mine), "tally": tally, "outcomes": outcomes,
+		"variants": len(mine), "seeded_changes": len(seeds), "tally": tally, "outcomes": outcomes,
 	}
 	var bad []string
 	for _, o := range outcomes {
@@ -98,8 +112,40 @@ func thoroughExtras(c *Ctx, pr *Property, repo, verif string) (map[string]any, [
 	if len(bad) > 0 {
 		fmt.Fprintf(os.Stderr, "selftest %s: %v\n", pr.ID, bad)
 	}
-	fmt.Printf("%s selftest: %d variants %v\n", pr.ID, len(mine), tally)
+	fmt.Printf("%s selftest: %d variants + %d seeded changes %v\n", pr.ID, len(mine), len(seeds), tally)
 	return extra, more
+}
+
+func runSeed(pr *Property, sm seedMeta, repo, verif string) variantOutcome {
+	out := variantOutcome{ID: "seed:" + sm.Seed, Expect: "fire (any rule of " + pr.ID + ")"}
+	ov, err := seedOverlay(repo, verif, sm.Seed)
+	if err != nil {
+		out.Outcome, out.Detail = "skipped", err.Error()
+		return out
+	}
+	p2, err := Load(LoadOpts{Dir: repo, Overlay: ov})
+	if err != nil {
+		out.Outcome, out.Detail = "discarded", "does not type-check on the current tree: "+err.Error()
+		return out
+	}
+	c2 := &Ctx{P: p2, Tier: "thorough", memo: map[string]any{}}
+	n := 0
+	for _, id := range pr.Rules {
+		for _, in := range runRule(c2, id).Instances {
+			if in.Verdict == Violation {
+				n++
+				if !inList(out.Rules, id) {
+					out.Rules = append(out.Rules, id)
+				}
+			}
+		}
+	}
+	if n > 0 {
+		out.Outcome = "killed"
+	} else {
+		out.Outcome = "missed"
+	}
+	return out
 }
 
 func runVariant(pr *Property, v Variant, repo string) variantOutcome {
